@@ -54,7 +54,13 @@ def num_text(t, v):
     return ("-" if v < 0 else " ") + body + " "
 
 
+class NegZero(Fraction):
+    """The value 0 written as an expression whose floating result is a negative zero: it prints like any other zero."""
+
+
 def lit(t, v):
+    if isinstance(v, NegZero):
+        return "(-1 * 0.0)" if t == "!" else "(-1 * 0.0#)"
     if t == "$":
         # embedded CR / LF go through CHR$
         parts = []
@@ -85,6 +91,8 @@ def rand_item(rng):
     if t == "&":
         return (t, rng.choice([40000, -40000, 2147483647, -2147483647, 100000, 1234567]))
     if t in "!#":
+        if rng.random() < 0.06:
+            return (t, NegZero(0))
         k = rng.choice([1, 3, 5, -7, 9, 11, -13, 21])
         v = Fraction(k, rng.choice([2, 4, 8]))
         if v.denominator == 1:
